@@ -52,6 +52,9 @@ def relax_chunk(idx, items):
     rec.install()
     try:
         for route, dom, method, ncons in items:
+            fixed = route.startswith('fixed-')
+            route = route.replace('fixed-', '')
+
             def model(domain):
                 x = optyx.Variable('x', lb=0, ub=10)
                 ub4 = 1 if dom == 'binary' else 4      # the continuous twin of a binary variable lives in [0, 1]
@@ -67,6 +70,11 @@ def relax_chunk(idx, items):
                     ds = list(optyx.MatrixVariable('D', 2, 2, lb=0, ub=ub4, domain=domain).T[:, 1])
                 else:
                     ds = list(optyx.MatrixVariable('D', 2, 2, lb=0, ub=ub4, domain=domain, symmetric=True).diagonal())
+                if fixed:
+                    # bounds coincide (a variable pinned by the user, e.g. during a branch-and-bound dive): still non-continuous
+                    for d in ds:
+                        d.lb = 1.0 if dom == 'binary' else 2.0
+                        d.ub = d.lb
                 lin = method in ('linprog', 'highs-ds') or method == 'auto-lp'
                 obj = x
                 for i, d in enumerate(ds):
@@ -80,11 +88,15 @@ def relax_chunk(idx, items):
             m = 'auto' if method.startswith('auto') else method
             pi, names = model(dom)
             pc, _ = model('continuous')
+            st_ = concrete.outcome(lambda: model(dom)[0].solve(method=m, strict=True))
+            if st_[:2] != ('raised', 'IntegerVariableError'):
+                pviolation(part, 'Relax(%s){strict}' % m, 'strict=True does not raise IntegerVariableError',
+                           {'scenario': '%s variables via %s%s, %s, %d constraint(s)' % (dom, 'fixed ' if fixed else '', route, method, ncons), 'observed': str(st_[:2])})
             a = concrete.outcome(lambda: pi.solve(method=m))
             b = concrete.outcome(lambda: pc.solve(method=m))
             part['evaluations'] += 1
             part['traces_validated_against_impl'] += 2
-            text = '%s %s via %s, %s, %d constraint(s)' % (dom, 'variables', route, method, ncons)
+            text = '%s %s via %s%s, %s, %d constraint(s)' % (dom, 'variables', 'fixed ' if fixed else '', route, method, ncons)
             part['nontrivial'].add(text)
             st = 'Relax(%s)' % m
             if a[0] == 'raised' or b[0] == 'raised':
@@ -114,7 +126,8 @@ def run(report, tier):
     g = histrun.history_graph(report)
     hs = [h for h in g.triples() if sum(1 for o in h if o['op'] == 'Solve') >= 2
           and any(o['op'] == 'SetObjective' and o['obj']['nc'] for o in h) and h[-1]['op'] == 'Solve']
-    sample = common.rng('C18').sample(hs, min(500 if tier == 'quick' else 5000, len(hs)))
+    from .. import histgraph
+    sample, report.extra['strata (fill, edit, observation) covered'] = histgraph.stratified(hs, 600 if tier == 'quick' else 5000, common.rng('C18'))
     batch = []
     for part in histrun.parallel(c13.replay_chunk, sample):
         batch += part.pop('batch')
@@ -124,7 +137,7 @@ def run(report, tier):
         part['violations'] = keep
         report.merge(part)
     validate_traces(report, batch, 'C18 repeated solves', keep=(('namesOK', 'Warn'),))
-    items = [(r, d, m, n) for r in ('scalar', 'vector', 'slice', 'matrix-row', 'transpose-col', 'sym-diagonal') for d in ('integer', 'binary')
+    items = [(r, d, m, n) for r in ('scalar', 'vector', 'slice', 'matrix-row', 'transpose-col', 'sym-diagonal', 'fixed-scalar', 'fixed-vector') for d in ('integer', 'binary')
              for m in ('auto', 'auto-lp', 'linprog', 'highs-ds', 'SLSQP', 'trust-constr', 'L-BFGS-B', 'TNC', 'COBYLA', 'Nelder-Mead', 'Powell', 'BFGS')
              for n in (0, 1) if not (m in ('L-BFGS-B', 'TNC', 'Nelder-Mead', 'Powell', 'BFGS') and n)]
     batch = []
@@ -132,6 +145,8 @@ def run(report, tier):
         batch += part.pop('batch')
         report.merge(part)
     validate_traces(report, batch, 'C18 relaxations', keep=(('namesOK', 'Warn'),))
+    from .. import suitetrace
+    suitetrace.validate(report, keep=(('namesOK', 'Warn'),))
     apirun.run_config(report, 'MC_C18', observer=view_observer, report_kinds=())
     return report.finish(
         rule='(1) every complete solve behaviour of MC_Sched on a model with a non-continuous variable (15 methods x strict x outcomes) replayed '
